@@ -17,7 +17,7 @@ pub fn def() -> PropDef {
 
 fn meta(_ctx: &Ctx) -> EvidenceMeta {
     EvidenceMeta {
-        rule: "accepted modules (generated with custom sections, fixtures, real corpus); per module: emit three times on one Module value, emit from two fresh parses, emit in a fresh process (1 case in 16), and emit(parse(emit(m))); non-trivial = module has a custom section, or >=2 functions, or >=2 types; distinct by module bytes. Oracle: byte equality.".into(),
+        rule: "accepted modules (generated with custom sections, fixtures, real corpus); per module: emit three times on one Module value, emit from two fresh parses, emit in a fresh process (1 case in 64), and emit(parse(emit(m))); non-trivial = module has a custom section, or >=2 functions, or >=2 types; distinct by module bytes. Oracle: byte equality.".into(),
         assumptions: vec!["the fresh-process comparison re-executes this binary on the same input (different hasher seeds, different ASLR)".into()],
         level: "exploration",
         exhaustive: false,
@@ -129,7 +129,7 @@ pub fn check(_ctx: &Ctx, input: &Input) -> CaseResult {
         }
     }
     // fresh process, 1 in 16
-    if out.hash % 16 == 0 {
+    if out.hash % 64 == 0 {
         out.label("fresh-process-compared");
         if let Ok(exe) = std::env::current_exe() {
             let tmp = std::env::temp_dir().join(format!("walrus-verif-c08-{}-{:x}.wasm", std::process::id(), out.hash));
@@ -184,7 +184,7 @@ pub fn check(_ctx: &Ctx, input: &Input) -> CaseResult {
 fn run(ctx: &Ctx) {
     let plans = [GenPlan {
         gen: "full-nobig",
-        cases: ctx.tier.pick(4000, 200_000),
+        cases: ctx.tier.pick(20_000, 400_000),
         min_len: 0,
         max_len: ctx.tier.pick(1200, 3000),
     }];
